@@ -732,7 +732,10 @@ fn collect_track_data<R: Read + Seek, T>(
     track_type: TrackType,
 ) -> Result<Option<BoneAnimationRaw>> {
     // Skip empty tracks
-    if track.timestamps.is_empty() && track.values.is_empty() {
+    if track.timestamps.is_empty()
+        && track.values.is_empty()
+        && track.ranges.as_ref().map_or(true, |r| r.is_empty())
+    {
         return Ok(None);
     }
 
@@ -1324,7 +1327,10 @@ fn collect_particle_track_data<R: Read + Seek, T: M2Parse>(
     let track = &block.track;
 
     // Skip empty tracks
-    if track.timestamps.is_empty() && track.values.array.is_empty() {
+    if track.timestamps.is_empty()
+        && track.values.array.is_empty()
+        && track.interpolation_ranges.is_empty()
+    {
         return Ok(None);
     }
 
@@ -1493,7 +1499,10 @@ fn collect_ribbon_track_data<R: Read + Seek, T: M2Parse>(
     let track = &block.track;
 
     // Skip empty tracks
-    if track.timestamps.is_empty() && track.values.array.is_empty() {
+    if track.timestamps.is_empty()
+        && track.values.array.is_empty()
+        && track.interpolation_ranges.is_empty()
+    {
         return Ok(None);
     }
 
@@ -1599,7 +1608,10 @@ fn collect_texture_track_data<R: Read + Seek, T: M2Parse>(
     let track = &block.track;
 
     // Skip empty tracks
-    if track.timestamps.is_empty() && track.values.array.is_empty() {
+    if track.timestamps.is_empty()
+        && track.values.array.is_empty()
+        && track.interpolation_ranges.is_empty()
+    {
         return Ok(None);
     }
 
@@ -1709,7 +1721,10 @@ fn collect_color_track_data<R: Read + Seek, T: M2Parse>(
     let track = &block.track;
 
     // Skip empty tracks
-    if track.timestamps.is_empty() && track.values.array.is_empty() {
+    if track.timestamps.is_empty()
+        && track.values.array.is_empty()
+        && track.interpolation_ranges.is_empty()
+    {
         return Ok(None);
     }
 
@@ -1789,7 +1804,10 @@ fn collect_transparency_track_data<R: Read + Seek, T: M2Parse>(
     let track = &block.track;
 
     // Skip empty tracks
-    if track.timestamps.is_empty() && track.values.array.is_empty() {
+    if track.timestamps.is_empty()
+        && track.values.array.is_empty()
+        && track.interpolation_ranges.is_empty()
+    {
         return Ok(None);
     }
 
@@ -1904,7 +1922,10 @@ fn collect_attachment_track_data<R: Read + Seek, T: M2Parse>(
     let track = &block.track;
 
     // Skip empty tracks
-    if track.timestamps.is_empty() && track.values.array.is_empty() {
+    if track.timestamps.is_empty()
+        && track.values.array.is_empty()
+        && track.interpolation_ranges.is_empty()
+    {
         return Ok(None);
     }
 
@@ -1980,7 +2001,10 @@ fn collect_camera_track_data<R: Read + Seek, T: M2Parse>(
     let track = &block.track;
 
     // Skip empty tracks
-    if track.timestamps.is_empty() && track.values.array.is_empty() {
+    if track.timestamps.is_empty()
+        && track.values.array.is_empty()
+        && track.interpolation_ranges.is_empty()
+    {
         return Ok(None);
     }
 
@@ -2076,7 +2100,10 @@ fn collect_light_track_data<R: Read + Seek, T: M2Parse>(
     let track = &block.track;
 
     // Skip empty tracks
-    if track.timestamps.is_empty() && track.values.array.is_empty() {
+    if track.timestamps.is_empty()
+        && track.values.array.is_empty()
+        && track.interpolation_ranges.is_empty()
+    {
         return Ok(None);
     }
 
